@@ -62,6 +62,7 @@ func init() {
 						if !w.T.Bool(1, 2, "verdict") {
 							w.Logf("approval requested for %s (application stays silent)", AddrStr(sf.F.Address()))
 							w.Probe("approval-left-pending")
+							w.Fault("app.silent")
 							return
 						}
 						for k := w.T.Choose(6, "think"); k > 0; k-- {
